@@ -103,6 +103,11 @@ fn main() {
             let seed: u64 = args[4].parse().unwrap();
             let shard: usize = args[5].parse().unwrap();
             let env = mk_env(tier, seed, shard, false, Some(&args[6]));
+            // names that are not UTF-8: in the properties that compare trees, rejects and metadata; not where the
+            // instrumentation hooks address files by name (C06, C07, C18)
+            if ["C01", "C05", "C08", "C09", "C10", "C13", "C14", "C15", "C16"].contains(&prop) {
+                ws::RAW_NAMES.store(true, std::sync::atomic::Ordering::Relaxed);
+            }
             engine::start_inproc_watchdog();
             dispatch!(prop, do_shard, &env, &args[6]);
             ws::rm_rf(&env.scratch);
